@@ -63,6 +63,7 @@ PROPS = {
     },
     "C09": {
         "runner": "Run09",
+        "spec_case_heads": ["range", "objsizes", "repeat ", "rxrepeat"],
         "theorems": ["C09_rule_repetition_bounded", "C09_rule_repetition_unbounded", "C09_rule_repetition_language",
                      "C09_rule_repetition_language_unbounded", "C09_nested_repetition", "C09_optional", "C09_star",
                      "C09_plus", "C09_regex_repetition", "C09_count_set_decides",
@@ -115,6 +116,7 @@ PROPS = {
     },
     "C05": {
         "runner": "Run05",
+        "spec_case_heads": ["cfg", "pexpr", "pcond"],
         "theorems": ["C05_accepts_only_derivable", "C05_accepts_every_derivable", "C05_viable_prefixes",
                      "C05_nullable_exact", "C05_allowed_lexemes_exact",
                      "C05_param_incr_field", "C05_param_incr_other_bits", "C05_param_decr_field", "C05_param_decr_other_bits",
@@ -342,6 +344,7 @@ PROPS = {
     },
     "C08": {
         "runner": "Run08",
+        "spec_case_heads": ["intrange", "floatrange", "intbounds", "multof"],
         "theorems": ["C08_integer_range_exact", "C08_integer_range_only_literals", "C08_empty_integer_range_rejected",
                      "C08_fraction_at_least", "C08_fraction_at_most", "C08_multiple_of_lcm_exact", "C08_multiple_of_exact",
                      "C08_decimal_range_exact", "C08_empty_decimal_range_rejected",
